@@ -60,7 +60,7 @@ func genCase(t *rapid.T) litterCase {
 		c.Tables[n] = genTable(t, n)
 	}
 	c.ReadOnly = fw.Pct(t, "readonly", 35)
-	c.Ending = fw.PickU(t, "ending", []string{"signals", "signals", "signals", "success", "error", "exit", "exitcode", "timeout_lock", "timeout_rlock", "timeout_temp"})
+	c.Ending = fw.PickU(t, "ending", []string{"signals", "signals", "signals", "success", "error", "exit", "exitcode", "timeout_lock", "timeout_rlock", "timeout_temp", "vanish_while_waiting"})
 	ns := fw.Range(t, "nstmts", 1, 6)
 	tn := func() string { return "`" + fw.PickU(t, "target", names) + "`" }
 	ncreated := 0
@@ -144,7 +144,7 @@ func genCase(t *rapid.T) litterCase {
 	case "exitcode":
 		pos := fw.Range(t, "exitpos", 0, len(c.Stmts))
 		c.Stmts = append(c.Stmts[:pos], append([]string{"EXIT 3"}, c.Stmts[pos:]...)...)
-	case "timeout_lock", "timeout_rlock", "timeout_temp":
+	case "timeout_lock", "timeout_rlock", "timeout_temp", "vanish_while_waiting":
 		c.LockOn = fw.PickU(t, "lockon", names)
 	}
 	if fw.Pct(t, "out", 25) {
@@ -424,6 +424,77 @@ func checkCase(c litterCase) (fw.Outcome, *fw.Violation) {
 		_ = os.RemoveAll(dir)
 		if res.Code == 8 {
 			o.Fingerprint = fmt.Sprintf("%s|ro=%v|out=%s|n=%d", c.Ending, c.ReadOnly, c.Out, len(c.Stmts))
+		}
+	case "vanish_while_waiting":
+		// a competing holder has the table locked; while csvq waits for it the table file disappears (the
+		// holder had created it and rolls back) and the lock is released: csvq obtains the lock, finds no
+		// file, and must give the lock back
+		dir := setup(c, "vanish")
+		held := "." + c.LockOn + ".lock"
+		_ = os.WriteFile(filepath.Join(dir, held), nil, 0600)
+		logp := filepath.Join(home, fmt.Sprintf("points-%d.log", atomic.AddInt64(&seq, 1)))
+		acted := make(chan bool, 1)
+		stop := make(chan struct{})
+		go func() {
+			deadline := time.Now().Add(25 * time.Second)
+			for time.Now().Before(deadline) {
+				select {
+				case <-stop:
+					acted <- false
+					return
+				default:
+				}
+				b, _ := os.ReadFile(logp)
+				waiting := false
+				for _, ln := range strings.Split(string(b), "\n") {
+					if (strings.HasPrefix(ln, "lock.check#") || strings.HasPrefix(ln, "rlock.check#")) && strings.HasSuffix(ln, c.LockOn) {
+						waiting = true
+					}
+				}
+				if waiting {
+					time.Sleep(20 * time.Millisecond)
+					_ = os.Remove(filepath.Join(dir, c.LockOn))
+					_ = os.Remove(filepath.Join(dir, held))
+					acted <- true
+					return
+				}
+				time.Sleep(5 * time.Millisecond)
+			}
+			_ = os.Remove(filepath.Join(dir, held))
+			acted <- false
+		}()
+		res := r.runOnce(dir, c, 60*time.Second, []string{"VERIF_POINT_LOG=" + logp}, "--wait-timeout", "20")
+		close(stop)
+		did := <-acted
+		_ = os.Remove(logp)
+		evals++
+		if res.TimedOut {
+			_ = os.RemoveAll(dir)
+			return o, fw.V("hang", "run whose table vanished while it waited for the lock did not terminate\n%s", prog)
+		}
+		_ = os.Remove(filepath.Join(dir, held)) // in case the process ended before the watcher acted
+		c2 := c
+		c2.Tables = map[string]string{}
+		for n, b := range c.Tables {
+			if n != c.LockOn {
+				c2.Tables[n] = b
+			}
+		}
+		c2.ReadOnly = false // the harness itself removed a file
+		if v := verdict(c2, dir, nil, committed, c.Ending, nil); v != nil {
+			_ = os.RemoveAll(dir)
+			v.Msg += "\nexit=" + fmt.Sprint(res.Code) + " stderr=" + res.Stderr + "\nprogram:\n" + prog
+			return o, v
+		}
+		if strings.Contains(res.Stderr, "Fatal Error") || strings.Contains(res.Stderr, "panic:") {
+			_ = os.RemoveAll(dir)
+			return o, fw.V("fatal_on_vanished_table", "stderr: %s\n%s", res.Stderr, prog)
+		}
+		_ = os.RemoveAll(dir)
+		if did && res.Code != 0 {
+			o.Fingerprint = fmt.Sprintf("%s|ro=%v|out=%s|n=%d|code=%d", c.Ending, c.ReadOnly, c.Out, len(c.Stmts), res.Code)
+		} else {
+			o.Classes = append(o.Classes, "vanish_not_reached")
 		}
 	case "signals":
 		for i, pt := range points {
